@@ -16,7 +16,7 @@ META = {
         "method, wasm) reduces to max(net_gain − exemption, 0); every year-level proceeds total is the sum of the disposals' "
         "gross_proceeds. R5: a disposal's quantity/gross_proceeds/proceeds are sums of its legs' quantity/gross_proceeds/proceeds. "
         "R6: dividend income += total_value and tax += tax_paid, keyed by the tax year of the line's own date. R7: no caller of "
-        "the exemption lookup defaults a missing year. R8: the same-day merge adds quantities and fees and sets the price to "
+        "the exemption lookup defaults a missing year. R7 also: values merged into Config.exemptions replace the entries already there (an override file wins). R8: the same-day merge adds quantities and fees and sets the price to "
         "(a₁p₁ + a₂p₂) ÷ (a₁ + a₂). Values are not computed; rounding to 10 dp in grouping is reported, not judged."),
     "trusted_base": ["rust_decimal arithmetic", "copy propagation + helper summaries preserve values", "rustc MIR + resolution"],
 }
